@@ -952,6 +952,7 @@ class NFA(fa.FA):
         # Start reading the prefix
         for q_a, q_b in product(self_reachable_states, other_reachable_states):
             curr_state = (q_a, q_b, False)
+            new_transitions.setdefault(curr_state, {})
 
             transitions_a = self_new_transitions.get(q_a, {})
             transitions_b = other_new_transitions.get(q_b, {})
